@@ -150,7 +150,8 @@ def audit(mod: str):
     res = []
     for line in p.stdout.splitlines():
         m = re.match(r"THEOREM (\S+) AXIOMS \[(.*)\]", line)
-        if m:
+        if m and m.group(1).startswith(mod + "."):
+            # only the module's own namespace (skips equation lemmas generated for imported defs)
             axs = [a.strip() for a in m.group(2).split(",") if a.strip()]
             res.append((m.group(1), axs))
     if p.returncode != 0 or not res:
